@@ -254,7 +254,10 @@ pub(crate) struct NotificationProtocol {
     command_rx: Receiver<NotificationCommand>,
 
     /// TX channel given to connection handlers for sending notifications.
-    notif_tx: Sender<(PeerId, BytesMut)>,
+    notif_tx: Sender<(PeerId, u64, BytesMut)>,
+
+    /// Identifier given to the next notification stream that opens.
+    next_stream: u64,
 
     /// Connected peers.
     peers: HashMap<PeerId, PeerContext>,
@@ -305,6 +308,7 @@ impl NotificationProtocol {
             timers: FuturesUnordered::new(),
             event_handle: NotificationEventHandle::new(config.event_tx),
             notif_tx: config.notif_tx,
+            next_stream: 0,
             command_rx: config.command_rx,
             pending_outbound: HashMap::new(),
             negotiation: HandshakeService::new(config.handshake),
@@ -1532,6 +1536,8 @@ impl NotificationProtocol {
                 // handling the connectivity logic on the `NotificationHandle` side
                 // might get confused about the current state of the connection.
                 let shutdown_tx = self.shutdown_tx.clone();
+                let stream = self.next_stream;
+                self.next_stream += 1;
                 let (connection, shutdown) = Connection::new(
                     peer,
                     inbound,
@@ -1539,6 +1545,7 @@ impl NotificationProtocol {
                     self.event_handle.clone(),
                     shutdown_tx.clone(),
                     self.notif_tx.clone(),
+                    stream,
                     async_rx,
                     sync_rx,
                 );
@@ -1546,7 +1553,7 @@ impl NotificationProtocol {
                 context.state = PeerState::Open { shutdown };
                 self.event_handle
                     .report_notification_stream_opened(
-                        protocol, fallback, direction, peer, handshake, sink,
+                        protocol, fallback, direction, peer, handshake, sink, stream,
                     )
                     .await;
 
